@@ -116,8 +116,7 @@ const (
 type listResult struct {
 	c    ctl
 	ret  *Value // ctlReturn
-	last *Value // value of the last value-producing statement executed, nil if none
-	tail bool   // the last statement executed produced no value
+	last *Value // value of the last statement executed that produced one, nil if none
 }
 
 func fail(format string, args ...any) {
@@ -131,9 +130,8 @@ func refuse(format string, args ...any) {
 // Run evaluates one program against the persistent store.
 //
 // Program value (GUIDE "一点说明": "vm.Ret 即是表达式的最终结果"): the value of
-// the last statement when that is a value-producing expression or a plain / &
-// assignment; an if / while statement yields null.  What a trailing item /
-// attribute / slice / this assignment "returns" is not documented → Unsupported.
+// the last statement executed — an expression or any assignment form yields its
+// value, a func statement the function, an if / while statement null.
 func (in *Interp) Run(prog *gen.Node) (val *Value, err error) {
 	if in.MaxSteps == 0 {
 		in.MaxSteps = 200000
@@ -165,9 +163,6 @@ func (in *Interp) Run(prog *gen.Node) (val *Value, err error) {
 	case ctlBreak, ctlContinue:
 		refuse("break/continue outside a loop")
 	}
-	if res.tail {
-		refuse("program ends in a statement whose value is not documented")
-	}
 	if res.last == nil {
 		return Null(), nil
 	}
@@ -181,22 +176,12 @@ func (in *Interp) tick() {
 	}
 }
 
-func isNonValueAssign(k string) bool {
-	switch k {
-	case "setidx", "setattr", "setca", "setslice", "setthis":
-		return true
-	}
-	return false
-}
-
 func (in *Interp) execList(a *act, list []*gen.Node) listResult {
 	var res listResult
 	for _, s := range list {
 		c, ret, v := in.execStmt(a, s)
 		if v != nil {
-			res.last, res.tail = v, false
-		} else if c == ctlNone {
-			res.tail = true
+			res.last = v
 		}
 		if c != ctlNone {
 			res.c, res.ret = c, ret
@@ -279,10 +264,6 @@ func (in *Interp) execStmt(a *act, n *gen.Node) (ctl, *Value, *Value) {
 	case "block", "prog":
 		refuse("bare block statement")
 	}
-	if isNonValueAssign(n.K) {
-		in.assignNoValue(a, n)
-		return ctlNone, nil, nil
-	}
 	return ctlNone, nil, in.eval(a, n)
 }
 
@@ -339,11 +320,7 @@ func (in *Interp) evalComputed(caller *act, c *Value) *Value {
 	}
 	defer func() { in.depth-- }()
 	na := &act{vars: c.Comp.Attrs, up: caller}
-	e := c.Comp.Expr
-	if isNonValueAssign(e.K) {
-		refuse("computed expression is an assignment without a documented value")
-	}
-	return in.eval(na, e)
+	return in.eval(na, c.Comp.Expr)
 }
 
 func (in *Interp) callFunc(caller *act, f *Func, args []*Value) *Value {
@@ -367,11 +344,8 @@ func (in *Interp) callFunc(caller *act, f *Func, args []*Value) *Value {
 	case ctlBreak, ctlContinue:
 		refuse("break/continue leaving a function body")
 	}
-	// no return: the value of the last value-producing statement, else null
+	// no return: the value of the last statement, null when there is none
 	// (GUIDE "函数" fib examples end in an expression / an if statement)
-	if res.tail {
-		refuse("function body ends in a statement whose value is not documented")
-	}
 	if res.last == nil {
 		return Null()
 	}
@@ -379,31 +353,38 @@ func (in *Interp) callFunc(caller *act, f *Func, args []*Value) *Value {
 }
 
 // ---------------------------------------------------------------------------
-// assignments without a documented value (statement position only)
+// the assignment forms other than `name = e` and `&name = e`.  Like a plain
+// assignment (GUIDE "换行规则": `a = 2;a` "输出2，即赋值后的a值") each is an expression
+// whose value is the assigned value (by code since e1a4753: typeItemSet /
+// typeAttrSet / typeSliceSet / store.local leave the value on the stack).
 
-func (in *Interp) assignNoValue(a *act, n *gen.Node) {
+func (in *Interp) assign(a *act, n *gen.Node) *Value {
 	switch n.K {
 	case "setthis":
 		// this.name = e : writes the activation's own space (GUIDE "计算类型"/"函数": this)
 		v := in.eval(a, n.Kids[0])
 		a.vars[n.S] = v
+		return v
 	case "setattr":
 		// obj.attr = e (GUIDE "字典": d.v3 = 4).  The value is evaluated first, then the
 		// object is read (by code AddAttrSet parser.go:354).
 		v := in.eval(a, n.Kids[0])
 		obj := in.lookup(a, n.S, false)
 		in.setAttr(obj, n.Names[0], v)
+		return v
 	case "setca":
 		// &name.attr = e (GUIDE "计算类型": &a.x = 5): raw read of the object
 		v := in.eval(a, n.Kids[0])
 		obj := in.lookup(a, n.S, true)
 		in.setAttr(obj, n.Names[0], v)
+		return v
 	case "setidx":
 		// a[i] = e (GUIDE "字典": d['v4'] = 5): container, index, value
 		obj := in.eval(a, n.Kids[0])
 		idx := in.eval(a, n.Kids[1])
 		v := in.eval(a, n.Kids[2])
 		in.setItem(obj, idx, v)
+		return v
 	case "setslice":
 		// a[x:y] = list (GUIDE "数组": a[2:3] = [4,5,6])
 		obj := in.eval(a, n.Kids[0])
@@ -411,7 +392,10 @@ func (in *Interp) assignNoValue(a *act, n *gen.Node) {
 		hi := in.evalOpt(a, n.Kids[2])
 		v := in.eval(a, n.Kids[3])
 		in.setSlice(obj, lo, hi, v)
+		return v
 	}
+	refuse("assignment kind %q", n.K)
+	return nil
 }
 
 func (in *Interp) evalOpt(a *act, n *gen.Node) *Value {
